@@ -1,1 +1,444 @@
-//! cube-of-resolutions Khovanov complex (reference)
+//! Cube-of-resolutions Khovanov complex, written from the definition.
+//!
+//! Frobenius algebra A = R[X]/(X^2 - hX - t), counit eps(1)=0, eps(X)=1:
+//!   m(1,1)=1  m(1,X)=m(X,1)=X  m(X,X)=hX+t
+//!   D(1)=1(x)X + X(x)1 - h 1(x)1      D(X)=X(x)X + t 1(x)1
+//! Cube: vertices = complete resolutions s in {0,1}^n, module A^{(x) circles(s)}, edge maps m / D
+//! with sign (-1)^{number of 1s before the flipped position}.  Homological degree |s| - n_-,
+//! quantum degree (for h=t=0) deg(labels) + |s| + n_+ - 2 n_-, deg(1)=+1, deg(X)=-1.
+//! Reduced theory (t = 0): sub-complex spanned by generators whose base-point circle is labelled X,
+//! quantum degree shifted by +1.
+//!
+//! All matrices are integer matrices parametrised by integers (h,t); homology over Z by an own
+//! Smith reduction, over Q by the integer rank, over F_p by the rank mod p.
+
+use crate::dense::{prime_powers, smith_diagonal, IsoType, DM};
+use crate::link::{Diagram, Edge, PdError};
+use crate::ring::Z;
+use num_bigint::BigInt;
+use num_traits::{One, Zero};
+use std::collections::BTreeMap;
+
+#[derive(Clone, Debug, PartialEq, Eq, PartialOrd, Ord)]
+pub struct Gen {
+    pub state: u64,
+    /// bit c set <=> circle c (in the order of `Diagram::circles`) carries X
+    pub labels: u64,
+    pub ncirc: u32,
+}
+
+#[derive(Clone, Debug)]
+pub struct Cube {
+    pub n: usize,
+    pub n_plus: usize,
+    pub n_minus: usize,
+    pub reduced: bool,
+    /// gens[r] = generators over states with r ones
+    pub gens: Vec<Vec<Gen>>,
+    /// d[r]: gens[r] -> gens[r+1], sparse (row, col, value)
+    pub d: Vec<Vec<(usize, usize, i64)>>,
+    pub components: usize,
+    pub orientation_ambiguous: bool,
+}
+
+/// a (x) b in basis {1,X}: 0 = 1, 1 = X.  Returns list of (label of merged circle, coeff).
+fn mult(a: u64, b: u64, h: i64, t: i64) -> Vec<(u64, i64)> {
+    match (a, b) {
+        (0, 0) => vec![(0, 1)],
+        (0, 1) | (1, 0) => vec![(1, 1)],
+        _ => vec![(1, h), (0, t)],
+    }
+}
+
+/// D(a): list of ((label first, label second), coeff)
+fn comult(a: u64, h: i64, t: i64) -> Vec<((u64, u64), i64)> {
+    match a {
+        0 => vec![((0, 1), 1), ((1, 0), 1), ((0, 0), -h)],
+        _ => vec![((1, 1), 1), ((0, 0), t)],
+    }
+}
+
+impl Cube {
+    pub fn new(dg: &Diagram, h: i64, t: i64, reduced: bool, base_edge: Option<Edge>) -> Result<Cube, PdError> {
+        let o = dg.orientation()?;
+        let n = dg.n_unresolved();
+        assert!(n <= 16, "reference cube limited to 16 crossings");
+        assert!(!reduced || t == 0, "reduced theory needs t = 0");
+        let nstates = 1u64 << n;
+        let circles: Vec<Vec<Vec<Edge>>> = (0..nstates).map(|s| dg.circles(s)).collect();
+        let base_circle = |s: u64| -> Option<usize> {
+            let b = base_edge?;
+            circles[s as usize].iter().position(|c| c.contains(&b))
+        };
+        let mut gens: Vec<Vec<Gen>> = vec![vec![]; n + 1];
+        let mut index: BTreeMap<(u64, u64), usize> = BTreeMap::new();
+        for s in 0..nstates {
+            let r = s.count_ones() as usize;
+            let nc = circles[s as usize].len();
+            let bc = if reduced { Some(base_circle(s).expect("base edge lies on a circle")) } else { None };
+            for l in 0..(1u64 << nc) {
+                if let Some(bc) = bc {
+                    if (l >> bc) & 1 == 0 { continue; }
+                }
+                index.insert((s, l), gens[r].len());
+                gens[r].push(Gen { state: s, labels: l, ncirc: nc as u32 });
+            }
+        }
+        let mut d: Vec<Vec<(usize, usize, i64)>> = vec![vec![]; n + 1];
+        for r in 0..n {
+            for (col, g) in gens[r].iter().enumerate() {
+                let s = g.state;
+                let cs = &circles[s as usize];
+                for k in 0..n {
+                    if (s >> k) & 1 == 1 { continue; }
+                    let s2 = s | (1 << k);
+                    let cs2 = &circles[s2 as usize];
+                    let sign: i64 = if (s & ((1u64 << k) - 1)).count_ones() % 2 == 0 { 1 } else { -1 };
+                    // circles of s not present in s2 and vice versa
+                    let gone: Vec<usize> = (0..cs.len()).filter(|&i| !cs2.contains(&cs[i])).collect();
+                    let born: Vec<usize> = (0..cs2.len()).filter(|&i| !cs.contains(&cs2[i])).collect();
+                    // labels of the unchanged circles carried over
+                    let mut base_labels = 0u64;
+                    for (i, c) in cs.iter().enumerate() {
+                        if let Some(j) = cs2.iter().position(|c2| c2 == c) {
+                            base_labels |= ((g.labels >> i) & 1) << j;
+                        }
+                    }
+                    let mut outs: Vec<(u64, i64)> = vec![];
+                    match (gone.len(), born.len()) {
+                        (2, 1) => {
+                            let (a, b) = ((g.labels >> gone[0]) & 1, (g.labels >> gone[1]) & 1);
+                            for (l, c) in mult(a, b, h, t) {
+                                outs.push((base_labels | (l << born[0]), c));
+                            }
+                        }
+                        (1, 2) => {
+                            let a = (g.labels >> gone[0]) & 1;
+                            for ((l1, l2), c) in comult(a, h, t) {
+                                outs.push((base_labels | (l1 << born[0]) | (l2 << born[1]), c));
+                            }
+                        }
+                        other => panic!("cube edge is neither a merge nor a split: {other:?}"),
+                    }
+                    for (l2, c) in outs {
+                        if c == 0 { continue; }
+                        match index.get(&(s2, l2)) {
+                            Some(&row) => d[r].push((row, col, sign * c)),
+                            None => panic!("target generator missing (sub-complex not closed)"),
+                        }
+                    }
+                }
+            }
+        }
+        Ok(Cube { n, n_plus: o.n_plus, n_minus: o.n_minus, reduced, gens, d, components: o.components, orientation_ambiguous: o.ambiguous })
+    }
+
+    pub fn h_deg(&self, r: usize) -> i32 {
+        r as i32 - self.n_minus as i32
+    }
+
+    pub fn q_deg(&self, r: usize, g: &Gen) -> i32 {
+        let xs = g.labels.count_ones() as i32;
+        let ones = g.ncirc as i32 - xs;
+        (ones - xs) + r as i32 + self.n_plus as i32 - 2 * self.n_minus as i32 + if self.reduced { 1 } else { 0 }
+    }
+
+    /// dense matrix of d[r] restricted to the given generator subsets
+    fn block(&self, r: usize, cols: &[usize], rows: &[usize]) -> SparseInt {
+        let cmap: BTreeMap<usize, usize> = cols.iter().enumerate().map(|(i, c)| (*c, i)).collect();
+        let rmap: BTreeMap<usize, usize> = rows.iter().enumerate().map(|(i, c)| (*c, i)).collect();
+        let mut m = SparseInt::new(rows.len(), cols.len());
+        for &(i, j, v) in &self.d[r] {
+            if let (Some(&ii), Some(&jj)) = (rmap.get(&i), cmap.get(&j)) {
+                m.add(ii, jj, v as i128);
+            }
+        }
+        m
+    }
+
+    fn full(&self, r: usize) -> SparseInt {
+        let cols: Vec<usize> = (0..self.gens[r].len()).collect();
+        let rows: Vec<usize> = (0..self.gens.get(r + 1).map(|g| g.len()).unwrap_or(0)).collect();
+        self.block(r, &cols, &rows)
+    }
+
+    /// d∘d = 0 (sanity of the reference itself)
+    pub fn check_dd(&self) -> bool {
+        for r in 0..self.n.saturating_sub(1) {
+            let a = self.full(r).to_dm();
+            let b = self.full(r + 1).to_dm();
+            if !b.mul(&a).is_zero() { return false; }
+        }
+        true
+    }
+
+    /// homology per homological degree; `modulus`: None = over Z, Some(0) = over Q, Some(p) = F_p
+    pub fn homology(&self, modulus: Option<u32>) -> BTreeMap<i32, IsoType> {
+        let mut out = BTreeMap::new();
+        let snfs: Vec<Smith> = (0..=self.n).map(|r| self.full(r).smith(modulus)).collect();
+        for r in 0..=self.n {
+            let nr = self.gens[r].len();
+            let rank_out = snfs[r].rank;
+            let (rank_in, tors) = if r > 0 { (snfs[r - 1].rank, snfs[r - 1].nonunit.clone()) } else { (0, vec![]) };
+            let free = nr - rank_out - rank_in;
+            let t = if modulus.is_none() { IsoType::from_orders(free, tors) } else { IsoType::free(free) };
+            if !t.is_zero() {
+                out.insert(self.h_deg(r), t);
+            }
+        }
+        out
+    }
+
+    /// bigraded homology (requires h = t = 0)
+    pub fn homology_bigraded(&self, modulus: Option<u32>) -> BTreeMap<(i32, i32), IsoType> {
+        let mut out = BTreeMap::new();
+        // generators of degree r by q
+        let by_q: Vec<BTreeMap<i32, Vec<usize>>> = (0..=self.n).map(|r| {
+            let mut m: BTreeMap<i32, Vec<usize>> = BTreeMap::new();
+            for (i, g) in self.gens[r].iter().enumerate() {
+                m.entry(self.q_deg(r, g)).or_default().push(i);
+            }
+            m
+        }).collect();
+        let empty: Vec<usize> = vec![];
+        for r in 0..=self.n {
+            for (&q, cols) in &by_q[r] {
+                let rows_out = by_q.get(r + 1).and_then(|m| m.get(&q)).unwrap_or(&empty);
+                let s_out = if r < self.n { self.block(r, cols, rows_out).smith(modulus) } else { Smith::default() };
+                let s_in = if r > 0 {
+                    let prev = by_q[r - 1].get(&q).unwrap_or(&empty);
+                    self.block(r - 1, prev, cols).smith(modulus)
+                } else { Smith::default() };
+                let free = cols.len() - s_out.rank - s_in.rank;
+                let t = if modulus.is_none() { IsoType::from_orders(free, s_in.nonunit.clone()) } else { IsoType::free(free) };
+                if !t.is_zero() {
+                    out.insert((self.h_deg(r), q), t);
+                }
+            }
+        }
+        out
+    }
+
+    pub fn total_generators(&self) -> usize {
+        self.gens.iter().map(|g| g.len()).sum()
+    }
+}
+
+// ---------------------------------------------------------------------------------------------
+// sparse integer matrices with an own Smith reduction
+// ---------------------------------------------------------------------------------------------
+
+#[derive(Clone, Debug)]
+pub struct SparseInt {
+    pub rows: usize,
+    pub cols: usize,
+    pub data: Vec<BTreeMap<usize, i128>>, // per row
+}
+
+#[derive(Clone, Debug, Default)]
+pub struct Smith {
+    pub rank: usize,
+    /// non-unit diagonal entries (absolute values) — torsion orders
+    pub nonunit: Vec<BigInt>,
+}
+
+impl SparseInt {
+    pub fn new(rows: usize, cols: usize) -> Self {
+        SparseInt { rows, cols, data: vec![BTreeMap::new(); rows] }
+    }
+    pub fn add(&mut self, i: usize, j: usize, v: i128) {
+        let e = self.data[i].entry(j).or_insert(0);
+        *e += v;
+        if *e == 0 { self.data[i].remove(&j); }
+    }
+    pub fn from_dm(m: &DM<Z>) -> Self {
+        use num_traits::ToPrimitive;
+        let mut s = SparseInt::new(m.rows, m.cols);
+        for i in 0..m.rows { for j in 0..m.cols {
+            let v = &m.get(i, j).0;
+            if !v.is_zero() { s.add(i, j, v.to_i128().expect("entry fits i128")); }
+        } }
+        s
+    }
+    pub fn to_dm(&self) -> DM<Z> {
+        let mut m = DM::zero(self.rows, self.cols);
+        for (i, row) in self.data.iter().enumerate() {
+            for (&j, &v) in row { m.set(i, j, Z(BigInt::from(v))); }
+        }
+        m
+    }
+
+    /// Smith data.  modulus None: over Z; Some(0): rank over Q; Some(p): rank over F_p.
+    pub fn smith(&self, modulus: Option<u32>) -> Smith {
+        match modulus {
+            Some(p) if p > 0 => Smith { rank: self.rank_mod(p as i128), nonunit: vec![] },
+            Some(_) => Smith { rank: self.smith_z().rank, nonunit: vec![] },
+            None => self.smith_z(),
+        }
+    }
+
+    fn rank_mod(&self, p: i128) -> usize {
+        let mut rows: Vec<BTreeMap<usize, i128>> = self.data.iter().map(|r| {
+            r.iter().map(|(&j, &v)| (j, v.rem_euclid(p))).filter(|(_, v)| *v != 0).collect()
+        }).collect();
+        let inv = |a: i128| -> i128 {
+            // Fermat
+            let (mut r, mut b, mut e) = (1i128, a.rem_euclid(p), p - 2);
+            while e > 0 { if e & 1 == 1 { r = r * b % p; } b = b * b % p; e >>= 1; }
+            r
+        };
+        let mut rank = 0;
+        loop {
+            // pick the sparsest non-empty row
+            let Some(pi) = (0..rows.len()).filter(|&i| !rows[i].is_empty()).min_by_key(|&i| rows[i].len()) else { break };
+            let prow = std::mem::take(&mut rows[pi]);
+            let (&pj, &pv) = prow.iter().next().unwrap();
+            let pinv = inv(pv);
+            for i in 0..rows.len() {
+                let Some(&a) = rows[i].get(&pj) else { continue };
+                let f = a * pinv % p;
+                for (&j, &v) in &prow {
+                    let e = rows[i].entry(j).or_insert(0);
+                    *e = (*e - f * v).rem_euclid(p);
+                    if *e == 0 { rows[i].remove(&j); }
+                }
+            }
+            rank += 1;
+        }
+        rank
+    }
+
+    fn smith_z(&self) -> Smith {
+        // phase 1: cancel unit pivots (Schur complement; the pivot row and column disappear)
+        let mut rows = self.data.clone();
+        let mut unit_rank = 0usize;
+        loop {
+            let mut best: Option<(usize, usize, usize)> = None; // (row len, i, j)
+            for (i, r) in rows.iter().enumerate() {
+                if r.is_empty() { continue; }
+                if let Some((&j, _)) = r.iter().find(|(_, &v)| v == 1 || v == -1) {
+                    if best.map(|(l, _, _)| r.len() < l).unwrap_or(true) {
+                        best = Some((r.len(), i, j));
+                    }
+                }
+            }
+            let Some((_, pi, pj)) = best else { break };
+            let prow = std::mem::take(&mut rows[pi]);
+            let pv = prow[&pj]; // +-1, its own inverse
+            for i in 0..rows.len() {
+                let Some(&a) = rows[i].get(&pj) else { continue };
+                let f = a.checked_mul(pv).expect("overflow");
+                for (&j, &v) in &prow {
+                    let e = rows[i].entry(j).or_insert(0);
+                    *e = e.checked_sub(f.checked_mul(v).expect("i128 overflow in reference")).expect("i128 overflow in reference");
+                    if *e == 0 { rows[i].remove(&j); }
+                }
+                debug_assert!(!rows[i].contains_key(&pj));
+            }
+            unit_rank += 1;
+        }
+        // phase 2: dense Smith form of what is left
+        let live_rows: Vec<usize> = (0..rows.len()).filter(|&i| !rows[i].is_empty()).collect();
+        let mut live_cols: Vec<usize> = live_rows.iter().flat_map(|&i| rows[i].keys().copied()).collect();
+        live_cols.sort();
+        live_cols.dedup();
+        let cmap: BTreeMap<usize, usize> = live_cols.iter().enumerate().map(|(k, c)| (*c, k)).collect();
+        let mut m = DM::<Z>::zero(live_rows.len(), live_cols.len());
+        for (ii, &i) in live_rows.iter().enumerate() {
+            for (&j, &v) in &rows[i] { m.set(ii, cmap[&j], Z(BigInt::from(v))); }
+        }
+        let diag = smith_diagonal(&m);
+        let nonunit: Vec<BigInt> = diag.iter().filter(|d| !d.is_one()).cloned().collect();
+        Smith { rank: unit_rank + diag.len(), nonunit }
+    }
+}
+
+/// torsion orders -> prime powers (helper for callers comparing against invariant factors)
+pub fn to_prime_powers(orders: &[BigInt]) -> Vec<(BigInt, u32)> {
+    let mut v: Vec<(BigInt, u32)> = orders.iter().flat_map(prime_powers).collect();
+    v.sort();
+    v
+}
+
+#[cfg(test)]
+mod tests {
+    use super::*;
+
+    fn bigr(pd: &[[u32; 4]], reduced: bool) -> BTreeMap<(i32, i32), String> {
+        let dg = Diagram::from_pd(pd);
+        let base = pd.first().map(|x| *x.iter().min().unwrap());
+        let c = Cube::new(&dg, 0, 0, reduced, base).unwrap();
+        assert!(c.check_dd());
+        c.homology_bigraded(None).into_iter().map(|(k, v)| (k, v.describe())).collect()
+    }
+
+    #[test]
+    fn trefoil() {
+        // yui's Link::trefoil() PD (left-handed)
+        let pd = [[1, 4, 2, 5], [3, 6, 4, 1], [5, 2, 6, 3]];
+        let h = bigr(&pd, false);
+        println!("{h:?}");
+        let dg = Diagram::from_pd(&pd);
+        let o = dg.orientation().unwrap();
+        println!("signs {:?}", o.signs);
+        // either chirality: 4 free generators and one Z/2
+        assert_eq!(h.len(), 5);
+        assert_eq!(h.values().filter(|v| v.as_str() == "Z^1").count(), 4);
+        assert_eq!(h.values().filter(|v| v.as_str() == "Z/2^1").count(), 1);
+        let neg = o.signs.iter().all(|&s| s == -1);
+        if neg {
+            assert_eq!(h[&(0, -1)], "Z^1");
+            assert_eq!(h[&(0, -3)], "Z^1");
+            assert_eq!(h[&(-2, -5)], "Z^1");
+            assert_eq!(h[&(-3, -9)], "Z^1");
+            assert_eq!(h[&(-2, -7)], "Z/2^1");
+        } else {
+            assert_eq!(h[&(0, 1)], "Z^1");
+            assert_eq!(h[&(0, 3)], "Z^1");
+            assert_eq!(h[&(2, 5)], "Z^1");
+            assert_eq!(h[&(3, 9)], "Z^1");
+            assert_eq!(h[&(3, 7)], "Z/2^1");
+        }
+        let r = bigr(&pd, true);
+        println!("{r:?}");
+        assert_eq!(r.len(), 3);
+    }
+
+    #[test]
+    fn hopf_and_unknots() {
+        let hopf = [[4, 1, 3, 2], [2, 3, 1, 4]];
+        let h = bigr(&hopf, false);
+        println!("{h:?}");
+        assert_eq!(h.values().map(|v| v.as_str()).collect::<Vec<_>>().len(), 4);
+        // kinked unknots
+        for pd in [[[1, 2, 2, 1]], [[1, 1, 2, 2]], [[2, 2, 1, 1]], [[2, 1, 1, 2]]] {
+            let h = bigr(&pd, false);
+            assert_eq!(h.len(), 2, "{pd:?} -> {h:?}");
+            assert_eq!(h[&(0, 1)], "Z^1");
+            assert_eq!(h[&(0, -1)], "Z^1");
+        }
+        // empty link: Z in (0,0)
+        let e = bigr(&[], false);
+        assert_eq!(e.len(), 1);
+        assert_eq!(e[&(0, 0)], "Z^1");
+    }
+
+    #[test]
+    fn lee_and_bn_ranks() {
+        let pd = [[1, 4, 2, 5], [3, 6, 4, 1], [5, 2, 6, 3]];
+        let dg = Diagram::from_pd(&pd);
+        for (h, t) in [(1, 0), (0, 1), (2, 0), (3, 0), (1, 1), (-1, 2)] {
+            let c = Cube::new(&dg, h, t, false, None).unwrap();
+            assert!(c.check_dd(), "dd != 0 for {h},{t}");
+            let hq = c.homology(Some(0));
+            let total: usize = hq.values().map(|v| v.rank).sum();
+            // discriminant h^2+4t != 0 => rank 2^components over Q
+            if h * h + 4 * t != 0 { assert_eq!(total, 2, "(h,t)=({h},{t}): {hq:?}"); }
+        }
+        let fig8 = [[4, 2, 5, 1], [8, 6, 1, 5], [6, 3, 7, 4], [2, 7, 3, 8]];
+        let h = bigr(&fig8, false);
+        println!("fig8 {h:?}");
+        assert_eq!(h.values().filter(|v| v.starts_with("Z^")).count(), 6);
+        assert_eq!(h.values().filter(|v| v.starts_with("Z/2")).count(), 2);
+    }
+}
